@@ -95,3 +95,147 @@ Proof.
   - cbn [fst snd chained fold_right]. split; [|lia]. split; [intros H; apply Hin in H; lia|]. split; [lia|exact I].
   - cbn [fst snd chained fold_right]. split; [|lia]. split; [intros H; apply Hin in H; lia|]. split; [lia|exact I].
 Qed.
+
+(* ---------- reading n bytes: HTTP ranges and FUSE reads ---------- *)
+Definition rsum (l : list (Z * Z)) : Z := fold_right (fun x acc => snd x + acc) 0 l.
+(* bytes of the reader's range left from its position, the range being cut at the torrent's end *)
+Definition left (total : Z) (r : rdr) : Z := Z.max 0 (Z.min (rd_length r) (total - rd_offset r) - rd_pos r).
+
+Lemma read_n_S f cap psize total r n :
+  read_n (S f) cap psize total r n =
+  (if n <=? 0 then ([], r) else
+    let '(r', abs, cnt, err) := rd_read psize total r (Z.min cap n) in
+    match err with
+    | RNone => if cnt =? 0 then ([], r')
+               else let (l, r'') := read_n f cap psize total r' (n - cnt) in ((abs, cnt) :: l, r'')
+    | _ => ([(abs, cnt)], r')
+    end).
+Proof. reflexivity. Qed.
+
+Definition read_n_post (total : Z) (r : rdr) (n : Z) (res : list (Z * Z) * rdr) : Prop :=
+  chained (rd_offset r + rd_pos r) (fst res) /\
+  rsum (fst res) = Z.min n (left total r) /\
+  rd_pos (snd res) = rd_pos r + Z.min n (left total r) /\
+  rd_offset (snd res) = rd_offset r /\
+  rd_length (snd res) = rd_length r.
+
+Lemma read_n_post_nil total r n : 0 <= n -> (n <= 0 \/ left total r = 0) -> read_n_post total r n ([], r).
+Proof. unfold read_n_post, left. cbn [fst snd chained rsum fold_right]. lia. Qed.
+
+Lemma read_n_post_last total r n r' abs cnt :
+  0 <= n -> 0 <= cnt <= n -> (0 < cnt -> abs = rd_offset r + rd_pos r) ->
+  rd_pos r' = rd_pos r + cnt -> rd_offset r' = rd_offset r -> rd_length r' = rd_length r ->
+  cnt = Z.min n (left total r) ->
+  read_n_post total r n ([(abs, cnt)], r').
+Proof. unfold read_n_post, left. cbn [fst snd chained rsum fold_right]. lia. Qed.
+
+Lemma read_n_post_cons total r n r' abs cnt l r'' :
+  0 < cnt <= n -> abs = rd_offset r + rd_pos r ->
+  rd_pos r' = rd_pos r + cnt -> rd_offset r' = rd_offset r -> rd_length r' = rd_length r ->
+  cnt <= left total r ->
+  read_n_post total r' (n - cnt) (l, r'') ->
+  read_n_post total r n ((abs, cnt) :: l, r'').
+Proof.
+  unfold read_n_post, left. cbn [fst snd chained rsum fold_right]. fold (rsum l).
+  intros Hc Ha Hp Ho Hl Hle (I1 & I2 & I3 & I4 & I5). rewrite Ho, Hp in I1. rewrite Hl, Ho, Hp in I2, I3.
+  replace (rd_offset r + rd_pos r + cnt) with (rd_offset r + (rd_pos r + cnt)) by lia.
+  repeat split; try lia. exact I1.
+Qed.
+
+Lemma read_n_spec cap psize total : 0 < cap -> forall fuel r n,
+  rd_wf psize total r -> rd_closed r = false -> 0 <= n -> (Z.to_nat n <= fuel)%nat ->
+  read_n_post total r n (read_n fuel cap psize total r n).
+Proof.
+  intros Hcap. induction fuel as [|f IH]; intros r n Hwf Hc Hn Hf.
+  - apply read_n_post_nil; lia.
+  - rewrite read_n_S. destruct (n <=? 0) eqn:En.
+    { apply read_n_post_nil; lia. }
+    destruct (rd_read psize total r (Z.min cap n)) as [[[r' abs] cnt] err] eqn:E.
+    assert (Hb : 0 <= Z.min cap n) by lia.
+    destruct (read_spec _ _ _ _ _ _ _ _ Hwf Hb Hc E) as (Hwf' & Ho & Hl & Hc' & Hp & Hcnt & Hin0 & Hpos & Heof & Hncl).
+    assert (Hin : 0 < cnt -> abs = rd_offset r + rd_pos r /\ rd_pos r + cnt <= rd_length r /\ abs + cnt <= total).
+    { intros H. destruct (Hin0 H) as (H1 & H2 & H3 & _). auto. }
+    clear Hin0.   (* the same-piece fact divides by a variable: keep it away from lia *)
+    destruct err.
+    + assert (Hne : ~ (rd_pos r' >= rd_length r \/ total <= rd_offset r + rd_pos r)).
+      { intros H. apply Heof in H. discriminate. }
+      assert (Hcp : 0 < cnt) by (apply Hpos; lia).
+      destruct (Hin Hcp) as (Ha & Hle & Ht).
+      replace (cnt =? 0) with false by lia.
+      assert (Hf' : (Z.to_nat (n - cnt) <= f)%nat) by lia.
+      assert (Hn' : 0 <= n - cnt) by lia.
+      specialize (IH r' (n - cnt) Hwf' Hc' Hn' Hf').
+      destruct (read_n f cap psize total r' (n - cnt)) as [l r''].
+      apply (read_n_post_cons total r n r' abs cnt l r''); try assumption; try lia. unfold left; lia.
+    + assert (He : rd_pos r' >= rd_length r \/ total <= rd_offset r + rd_pos r) by (apply Heof; reflexivity).
+      apply read_n_post_last; try assumption; try lia. unfold left. lia.
+    + exfalso. apply Hncl. reflexivity.
+Qed.
+
+Lemma read_n_explicit cap psize total fuel r n :
+  0 < cap -> rd_wf psize total r -> rd_closed r = false -> 0 <= n -> (Z.to_nat n <= fuel)%nat ->
+  chained (rd_offset r + rd_pos r) (fst (read_n fuel cap psize total r n)) /\
+  rsum (fst (read_n fuel cap psize total r n)) = Z.min n (left total r) /\
+  rd_pos (snd (read_n fuel cap psize total r n)) = rd_pos r + Z.min n (left total r) /\
+  rd_offset (snd (read_n fuel cap psize total r n)) = rd_offset r /\
+  rd_length (snd (read_n fuel cap psize total r n)) = rd_length r.
+Proof. intros Hcap Hwf Hc Hn Hf. exact (read_n_spec cap psize total Hcap fuel r n Hwf Hc Hn Hf). Qed.
+
+(* the bytes ServeContent is to send for a Range header lie inside the file *)
+Lemma http_range_inside flen s st a cnt :
+  0 <= flen -> rspec_ok s = true -> http_range flen s = (st, a, cnt) -> st <> 416 ->
+  0 <= a /\ 0 <= cnt /\ a + cnt <= flen /\ (st = 200 -> a = 0 /\ cnt = flen).
+Proof.
+  intros Hf Hs H Hst. destruct s as [|x y|x|k]; cbn [http_range rspec_ok] in *.
+  - injection H as <- <- <-. lia.
+  - destruct (flen <=? x) eqn:E; [destruct (flen =? 0) eqn:E0|]; injection H as <- <- <-; lia.
+  - destruct (flen <=? x) eqn:E; [destruct (flen =? 0) eqn:E0|]; injection H as <- <- <-; lia.
+  - injection H as <- <- <-. lia.
+Qed.
+
+(* HTTP: for a file inside the torrent, after the Seek to the first byte of the range, copying the
+   range's length returns consecutive ranges of the torrent that start at the file's offset + first
+   byte and add up to exactly the length *)
+Lemma http_range_served psize total off flen s st a cnt fuel :
+  0 < psize -> 0 < total -> 0 <= off -> 0 <= flen -> off + flen <= total ->
+  rspec_ok s = true -> http_range flen s = (st, a, cnt) -> st <> 416 -> (Z.to_nat cnt <= fuel)%nat ->
+  let r := fst (rd_seek (rd_new off flen) a SeekStart) in
+  let l := fst (read_n fuel 32768 psize total r cnt) in
+  chained (off + a) l /\ rsum l = cnt /\ off <= off + a /\ off + a + cnt <= off + flen.
+Proof.
+  intros Hps Ht Ho Hfl Hin Hs H Hst Hfu r0 l0. subst r0 l0.
+  destruct (http_range_inside _ _ _ _ _ Hfl Hs H Hst) as (Ha & Hc & Hac & _).
+  unfold rd_seek, rd_new. cbn [rd_closed rd_pos rd_length rd_offset].
+  replace (a <? 0) with false by lia. cbn [fst].
+  set (r := {| rd_offset := off; rd_length := flen; rd_pos := a; rd_closed := false |}).
+  assert (Hwf : rd_wf psize total r) by (unfold rd_wf, r; cbn; lia).
+  assert (H32 : 0 < 32768) by lia.
+  destruct (read_n_spec 32768 psize total H32 fuel r cnt Hwf eq_refl Hc Hfu) as (C & S & _).
+  unfold left, r in *. cbn [rd_offset rd_pos rd_length] in *.
+  repeat split; try lia. exact C.
+Qed.
+
+(* FUSE: Seek(o) then ReadFull of n bytes returns consecutive ranges from the file's offset + o adding
+   up to min(n, bytes of the file left from o) *)
+Lemma fuse_read_served psize total off flen o n fuel :
+  0 < psize -> 0 < total -> 0 <= off -> 0 <= flen -> off + flen <= total ->
+  0 <= o -> 0 < n -> (Z.to_nat n <= fuel)%nat ->
+  let r := fst (rd_seek (rd_new off flen) o SeekStart) in
+  let l := fst (read_n fuel n psize total r n) in
+  chained (off + o) l /\ rsum l = fuse_read flen o n /\ (0 < rsum l -> off + o + rsum l <= off + flen).
+Proof.
+  intros Hps Ht Ho Hfl Hin Hoo Hn Hfu r0 l0. subst r0 l0.
+  unfold rd_seek, rd_new. cbn [rd_closed rd_pos rd_length rd_offset].
+  replace (o <? 0) with false by lia. cbn [fst].
+  set (r := {| rd_offset := off; rd_length := flen; rd_pos := o; rd_closed := false |}).
+  assert (Hwf : rd_wf psize total r) by (unfold rd_wf, r; cbn; lia).
+  assert (Hn0 : 0 <= n) by lia.
+  destruct (read_n_spec n psize total Hn fuel r n Hwf eq_refl Hn0 Hfu) as (C & S & _).
+  unfold left, r, fuse_read in *. cbn [rd_offset rd_pos rd_length] in *.
+  repeat split; try lia. exact C.
+Qed.
+
+Example http_range_example :
+  fst (read_n 100 32768 16384 100000 (fst (rd_seek (rd_new 5000 60000) 100 SeekStart)) 40000)
+  = [(5100, 11284); (16384, 16384); (32768, 12332)].
+Proof. vm_compute. reflexivity. Qed.
